@@ -359,7 +359,7 @@ class Simulator(Computer, _mixins.CodeMixin):
             original_modes = instruction.modes
 
             try:
-                if not hasattr(instruction, "modes") or instruction.modes is tuple():
+                if not hasattr(instruction, "modes") or len(instruction.modes) == 0:
                     instruction.modes = active_modes
 
                 if any(m not in active_modes for m in instruction.modes):
